@@ -36,6 +36,11 @@ func (e *Engine) intrinsic2(st *State, fr *Frame, fn *ssa.Function, args []Value
 }
 
 func (e *Engine) schedSleep(st *State, fr *Frame, d *Term, pos token.Pos) []exit {
+	if st.clock != nil {
+		// deterministic clock: sleeping is the only thing that takes time besides waiting on the network
+		pos := e.tc.Ite(e.tc.BVSlt(d, e.bv64(0)), e.bv64(0), d)
+		st.clock = e.tc.BVAdd(st.clock, pos)
+	}
 	return retExit(st, nil)
 }
 
